@@ -17,7 +17,8 @@ RULE = ('structured generation per validator: every numeric bound (ints, floats 
         'in a child process per zone that sets TZ and calls time.tzset() before the library is imported, in the fixed-offset zones JST-9, EST5 and '
         '<+0530>-5:30 (no tz database needed; same cases, same specification: a timestamp denotes datetime(1970, 1, 1) + its seconds in EVERY zone); '
         'typed random ForEach/Composite '
-        'trees of depth <= 3 over real and scripted leaf validators; convert_value on a value zoo x the six target types and str(x) '
+        'trees of depth <= 3 over real and scripted leaf validators; convert_value on a value zoo (incl. bytes / bytearray with valid and INVALID UTF-8: '
+        'latin-1 text, truncated / overlong sequences, lone continuation bytes, surrogates, BOMs, random byte strings) x the six target types and str(x) '
         'round trips for bools, ints and floats.  non-trivial = inside the documented input domain (spec is not `na`)')
 EXHAUSTIVE = {'quick': False, 'thorough': False}
 ASSUMPTIONS = [
@@ -98,6 +99,8 @@ def enc(v, reg=None):
         return ['str', cps(v)]
     if isinstance(v, bytes):
         return ['bytes', list(v)]
+    if isinstance(v, bytearray):
+        return ['ext', 'bytearray', v.hex()]
     if isinstance(v, list):
         return ['list', [enc(x, reg) for x in v]]
     if isinstance(v, tuple):
@@ -178,6 +181,8 @@ def dec(e, reg=None):
             return fractions.Fraction(r)
         if k == 'complex':
             return complex(r)
+        if k == 'bytearray':
+            return bytearray.fromhex(r)
         if k == 'datetime_us':
             return _dt.datetime(1970, 1, 1) + _dt.timedelta(microseconds=int(r))
         return object()
@@ -753,6 +758,12 @@ CONVERT_STRS = ['true', 'TRUE', ' True ', 'tRuE', '1', '0', 'false', 'FALSE', ' 
                 '-' + '9' * 4300, '1_' * 2200 + '1', '0' * 5000, 'None', 'none', 'true,false', '1,0', 'tru', 'tr ue', '01', '00', '1.0', '1L', '² ', '³', '一']
 
 
+CONVERT_BYTES = [b'1', b'0', b'true', b' 12 ', b'-7', b'1.5', b'a,b', b'k:v', b'', b' ', 'caf\u00e9'.encode(), '\u0661\u0662'.encode(), b'\xef\xbb\xbf12',
+                 b'caf\xe9', b'\xe9', b'\x80', b'\xbf1', b'\xe2\x82', b'\xe2\x82\xac'[:1], b'\xc0\xaf', b'\xc1\xbf', b'\xed\xa0\x80', b'\xf4\x90\x80\x80',
+                 b'\xf8\x88\x80\x80\x80', b'\xff\xfe1\x00', b'\xfe\xff\x001', b'12\xff', b'\xfftrue', b'1\x00', b'\x00']
+BYTE_ALPH = list(b'10truefals ,:.-') + [0x80, 0xbf, 0xc0, 0xc3, 0xa9, 0xe2, 0x82, 0xac, 0xed, 0xa0, 0xf0, 0x9f, 0xf4, 0x90, 0xff, 0xfe, 0x00]
+
+
 def gen_convert(rng, tier):
     out = []
     zoo = [None, True, False, 0, 1, -1, 5, 10 ** 20, -10 ** 20, 10 ** 400, 10 ** 4299, 10 ** 4300 - 1, 10 ** 4300, -10 ** 4300, 10 ** 5000,
@@ -767,6 +778,14 @@ def gen_convert(rng, tier):
             c = c_convert(d, t)
             if c:
                 out.append(c)
+    # byte strings: valid UTF-8 (digits, literals, separators, non-ASCII text, BOM) and INVALID UTF-8 (latin-1 text, truncated / overlong
+    # multi-byte sequences, lone continuation bytes, surrogates, beyond U+10FFFF, UTF-16 BOM), as bytes and as bytearray, x every target
+    for bs in CONVERT_BYTES + [bytes(rng.choice(BYTE_ALPH) for _ in range(rng.randint(1, 5))) for _ in range(40 if tier == 'quick' else 600)]:
+        for d in (enc(bs), enc(bytearray(bs))):
+            for t in TARGETS:
+                c = c_convert(d, t)
+                if c:
+                    out.append(c)
     # random strings
     alph = list('tTrRuUeE10fFaAlLsS ,:_+-.xX9nNiI') + ['　', '\x85', '١', '１', 'İ', '\t', '\n']
     for _ in range(300 if tier == 'quick' else 6000):
